@@ -59,8 +59,22 @@ def conc_scenarios(raws, tier, seed):
                 sched += [{"s": "env", "op": "touch", "res": "configmaps", "name": "rel0", "wait": True}]
                 sched += [{"s": "env", "op": "setfield", "res": "parents", "name": "p%d" % i, "path": ["spec", "nonrev"], "value": "2", "wait": i == n_par - 1}
                           for i in range(n_par)]
+                # scale-down of every other parent (children deleted) while the rest get another update, then scale up again
+                for wave, val in ((0, "3"), (1, "4")):
+                    for i in range(n_par):
+                        if i % 2 == wave:
+                            sched.append({"s": "env", "op": "setfield", "res": "parents", "name": "p%d" % i, "path": ["spec", "names"], "value": ["p%d-a" % i]})
+                        else:
+                            sched.append({"s": "env", "op": "setfield", "res": "parents", "name": "p%d" % i, "path": ["spec", "nonrev"], "value": val})
+                    sched[-1]["wait"] = True
+                    for i in range(n_par):
+                        if i % 2 == wave:
+                            sched.append({"s": "env", "op": "setfield", "res": "parents", "name": "p%d" % i, "path": ["spec", "names"], "value": ["p%d-a" % i, "p%d-b" % i]})
+                    sched[-1]["wait"] = True
                 cfg = {"kind": "composite", "parentRes": "parents", "children": [{"res": "things", "method": method}],
                        "fieldPaths": ["spec.rev"], "customize": bool(raw.get("customize")), "workers": 4 + (rep % 3) * 2}
+                if raw.get("ssa"):
+                    cfg["apply"] = "ssa"
                 out.append({"id": "conc-%d-%d-%s" % (ri, rep, method), "fam": "conc", "cfg": cfg, "objs": objs, "hook": hook, "sched": sched, "expect": {}})
     return out
 
@@ -86,6 +100,8 @@ def run_conc(scr, tier):
     r, raws = (None, None)
     import props
     r, raws = props.beh_run(scr, "Threads", "Beh_Threads.cfg")
+    _, raws2 = props.beh_run(scr, "Threads", "Beh_Threads_ssa.cfg")
+    raws = list(raws) + list(raws2)
     scenarios = conc_scenarios(raws, tier, vlib.seed())
     binary = vlib.build_test_binary(scr, COMPOSITE, race=True)
     shards = vlib.shard(scenarios, 4 if tier == "quick" else 8)
